@@ -55,7 +55,7 @@ def run_case(case):
     nz = len(St["z"])
     tol = solve.tol(prec, St["G"], cr=St["cr"])
     desc = gen.describe(St)
-    levels, lkind = solve.pick_levels(rng, nz, str(rng.choice(["top", "scalar", "few"])))
+    levels, lkind = solve.pick_levels(rng, nz, str(rng.choice(["top", "scalar", "few", "shuffled"])))
     oblique = bool(abs(u[-1]) > 1e-6 and abs(v[-1]) > 1e-6 and not np.allclose(Kx, Ky))
     fp = bool(rng.random() < 0.5)
     q0, skind = gen.make_source(rng, ny, nx)
@@ -121,7 +121,7 @@ def run_case(case):
         tolh = solve.tol(prec, Sh["G"], cr=Sh["cr"])
         dh = gen.describe(Sh)
         nzh = len(Sh["z"])
-        lv, _k = solve.pick_levels(rng, nzh, str(rng.choice(["top", "scalar", "few"])))
+        lv, _k = solve.pick_levels(rng, nzh, str(rng.choice(["top", "scalar", "few", "shuffled"])))
         fp = bool(rng.random() < 0.5)
         q0, skind = gen.make_source(rng, ny, nx)
         im, jm = int(rng.integers(nx)), int(rng.integers(ny))
